@@ -53,7 +53,7 @@ for pid in sorted(SPACE):
 trows += ["", "The thorough tier of C07 was likewise last run to completion before waves 8-9.  C02's thorough tier was run on the final checks in the",
           "last hour and reported a genuine defect at depth 3 (a netlist cloned after one of its instances had been re-pointed to a cell of another",
           "netlist: the cloned instance was missing from that cell's reference set), repaired by the last `fix:` commit; the recorded history replays",
-          "clean on the repaired tree and every quick check passes on it, the full thorough run of C02 (14 min) was not repeated; its row above is the earlier run;",
+          "clean on the repaired tree, every quick check passes on it, and the thorough run of C02 repeated on the repaired tree exits 0 (its row above);",
           "every other row (C12 included: 333 M queries) is a run of the checks as committed (exit 0, no VIOLATION, no KNOWN-FINDING beyond the listed ones).",
           "The clauses added to the Engine-A checks after their last complete thorough run were exercised at thorough depth on their own, without",
           "alarm: the bulk removals with up to 8 members (7808 cases each for C01 and C02), the odd-position scenarios S18 at depth 3 (22 k / 4 k states),",
